@@ -155,7 +155,7 @@ PROPS["C08"] = C08
 # --------------------------------------------------------------------------------------------- C06
 def _OP(desc, tier="quick"):
     return H(tier, "Oplog::open on a reference-encoded image: " + desc, "none (image concrete; CRC-framed images with symbolic bytes exhaust memory)",
-             "one configuration per harness instance", rules=[(r"crc32_bitwise", 420), (r"build_entries|open_entries", 6)], timeout=900, unwind=5, extra=FS9000,
+             "one configuration per harness instance", rules=[(r"crc32_bitwise", 420), (r"build_entries|open_entries", 6), (r"torn_header|torn_entry", 300)], timeout=900, unwind=5, extra=FS9000,
              nonterm=[r"Oplog::open\.unwind"])
 
 
@@ -199,3 +199,33 @@ C02 = dict(
     },
 )
 PROPS["C02"] = C02
+
+# --------------------------------------------------------------------------------------------- C07
+C07 = dict(
+    title="A torn final write is tolerated like a clean crash",
+    variant="model",
+    patterns=["c07_"],
+    functions=["hypercore::oplog::Oplog::{open,validate_leader}", "Header::decode, Entry::decode", "crc32fast (portable path)"],
+    oracle="the pre-state of the torn call (header of the other slot / pending entries before the append)",
+    outside=["cut points other than the listed ones (1,6,8,9,100,270 / 8,60,150 for headers; 3,8,9,148 / 8,40,148 for entries): each cut is one concrete image, symbolic cuts make every image byte an if-then-else over CRC-framed data (out of memory)",
+             "torn writes to the bitfield/tree/data stores (rewritten by replay; orchestration in core.rs is outside every claim)"],
+    harnesses={
+        "c07_torn_header_k1": _OP("header flush torn after 1 bytes into an empty slot 1: falls back to slot 0"),
+        "c07_torn_header_k6": _OP("header flush torn after 6 bytes into an empty slot 1: falls back to slot 0"),
+        "c07_torn_header_k8": _OP("header flush torn after 8 bytes into an empty slot 1: falls back to slot 0"),
+        "c07_torn_header_k9": _OP("header flush torn after 9 bytes into an empty slot 1: falls back to slot 0"),
+        "c07_torn_header_k100": _OP("header flush torn after 100 bytes into an empty slot 1: falls back to slot 0"),
+        "c07_torn_header_k270": _OP("header flush torn after 270 bytes into an empty slot 1: falls back to slot 0"),
+        "c07_torn_header_over_old_k8": _OP("header flush torn after 8 bytes over the older header in slot 1: falls back to slot 0"),
+        "c07_torn_header_over_old_k60": _OP("header flush torn after 60 bytes over the older header in slot 1: falls back to slot 0"),
+        "c07_torn_header_over_old_k150": _OP("header flush torn after 150 bytes over the older header in slot 1: falls back to slot 0"),
+        "c07_torn_entry_end_k3": _OP("entry append torn after 3 bytes at the end of the file: ignored"),
+        "c07_torn_entry_end_k8": _OP("entry append torn after 8 bytes at the end of the file: ignored"),
+        "c07_torn_entry_end_k9": _OP("entry append torn after 9 bytes at the end of the file: ignored"),
+        "c07_torn_entry_end_k148": _OP("entry append torn after 148 bytes at the end of the file: ignored"),
+        "c07_torn_entry_over_stale_k8": _OP("entry append torn after 8 bytes over a stale entry: ignored"),
+        "c07_torn_entry_over_stale_k40": _OP("entry append torn after 40 bytes over a stale entry: ignored"),
+        "c07_torn_entry_over_stale_k148": _OP("entry append torn after 148 bytes over a stale entry: ignored"),
+    },
+)
+PROPS["C07"] = C07
